@@ -15,7 +15,7 @@ NAMES = ['connect', 'requestHosts', 'disconnectPeers', 'runPool', 'intervalCredi
          'nodes', 'balances', 'trials', 'accounts', 'nonces', 'peers', 'remoteHosts', 'remoteNodeLookup', 'skipWhitelist',
          'nonceExpire', 'onDisconnect', 'registry', 'pending', 'buffered', 'rwc', 'started', 'stopCh', 'waitCh', 'nodeInfo',
          'cache', 'withdrawMu', 'muWrite', 'muRead', 'mu', 'id', 'db', 'now', 'remoteAddr']
-env = dict(os.environ, GOFLAGS='-mod=mod', GOPROXY='off', GOSUMDB='off', GOTOOLCHAIN='local')
+env = dict(os.environ, GOFLAGS='-mod=mod -trimpath', GOPROXY='off', GOSUMDB='off', GOTOOLCHAIN='local')
 env.pop('GOWORK', None)
 def run(name):
     new = 'zz' + name[0].upper() + name[1:] + 'Renamed' if name[0].islower() else 'Zz' + name + 'Renamed'
